@@ -326,7 +326,10 @@ fn run_c15(sc: &Scenario, keep_log: bool) -> (Vec<Violation>, Outcome) {
                 let drift_now = acc_now as i128 - now.stored_bytes as i128;
                 // a difference that shrinks towards zero is the accounting being corrected
                 // (empty-store reset, eviction); what is reported is drift being created
-                if drift_now != drift_prev && (drift_now.abs() > drift_prev.abs() || (drift_now < 0) != (drift_prev < 0)) {
+                // (a command that starts with the accounted usage above the limit runs an eviction sweep:
+                // that is the recorded consequence of earlier drift, reported through live-item-lost, and the
+                // sweep's own arithmetic is C14's business)
+                if drift_now != drift_prev && acc_prev <= limit && (drift_now.abs() > drift_prev.abs() || (drift_now < 0) != (drift_prev < 0)) {
                     // attribute: which known mechanism explains exactly this change?
                     let delta = drift_now - drift_prev;
                     let (kind, st, cause) = if single {
@@ -342,7 +345,9 @@ fn run_c15(sc: &Scenario, keep_log: bool) -> (Vec<Violation>, Outcome) {
                         let was_expired = matches!(before_pres[0], crate::model::Presence::Expired | crate::model::Presence::Either | crate::model::Presence::Unknown);
                         let collected = existed && was_expired && (!exists_now || (stores && ok)) && !matches!(info.kind, Kind::Delete | Kind::Flush | Kind::Set);
                         let overwrote = existed && !collected && stores && ok && exists_now;
-                        let failed_counted = stores && st == status::EXISTS && f.req.cas != 0 && existed;
+                        // a conditional store refused inside the inner store (CAS mismatch, or - where a server refuses
+                        // a CAS-carrying store of a missing key - 'not found') after the policy layer had counted it
+                        let failed_counted = stores && f.req.cas != 0 && ((st == status::EXISTS && existed) || (st == status::NOT_FOUND && !existed));
                         let explained = if collected || overwrote { old_len } else { 0 };
                         let cause = if info.kind == Kind::Flush {
                             if ok && delta == prev.stored_bytes as i128 - now.stored_bytes as i128 {
